@@ -4,7 +4,8 @@
    On success stores it under /verif/seeded/<Cxx>-<v>/ with meta.json."""
 import sys, os, re, subprocess, json, shutil
 pid, v = sys.argv[1], sys.argv[2]
-src = f"/tmp/seed-out/{pid}/{v}"
+base = sys.argv[3] if len(sys.argv) > 3 else "/tmp/seed-out"
+src = f"{base}/{pid}/{v}"
 env = dict(os.environ, GOFLAGS="-mod=mod", GOPROXY="off", GOSUMDB="off", GOTOOLCHAIN="local")
 demo = [f for f in os.listdir(src) if f.endswith(".go")]
 if not demo:
